@@ -1569,10 +1569,17 @@ impl SystemState {
             -1 => {
                 // any child
                 let mut result = None;
+                let mut result_is_alive = false;
                 for (pid, process) in &mut self.processes {
                     if process.ppid == parent_pid {
                         let changed = process.state_has_changed();
-                        result = Some((*pid, process));
+                        // A dead child whose state has already been reported
+                        // must not hide a child that is still alive.
+                        let is_alive = process.state().is_alive();
+                        if changed || is_alive || !result_is_alive {
+                            result = Some((*pid, process));
+                            result_is_alive = is_alive;
+                        }
                         if changed {
                             break;
                         }
